@@ -2,6 +2,7 @@ package rules
 
 import (
 	"fmt"
+	"go/types"
 	"strings"
 
 	"bxhlint/core"
@@ -55,8 +56,24 @@ func isRevertDepth(in ssa.Instruction, d int) bool {
 		return false
 	}
 	g := core.StaticCallee(c)
-	if g == nil || g.Blocks == nil || g.Parent() == nil {
-		return false // only local closures are looked through
+	if g == nil || g.Blocks == nil {
+		return false
+	}
+	if g.Parent() == nil {
+		// besides local closures: a method of a small unexported helper type of the executor (txSnapshot.revert)
+		ok := false
+		if core.PkgOf(g) == "internal/executor" && g.Signature.Recv() != nil {
+			rt := g.Signature.Recv().Type()
+			if pt, isPtr := rt.(*types.Pointer); isPtr {
+				rt = pt.Elem()
+			}
+			if nt, isNamed := rt.(*types.Named); isNamed && !nt.Obj().Exported() {
+				ok = true
+			}
+		}
+		if !ok {
+			return false
+		}
 	}
 	for _, b := range g.Blocks {
 		for _, x := range b.Instrs {
@@ -74,7 +91,32 @@ func isSnapshot(in ssa.Instruction) bool {
 		return false
 	}
 	o := core.CalleeObj(c)
-	return o != nil && (o.Name() == "Snapshot" || o.Name() == "SnapshotForParallel")
+	if o != nil && (o.Name() == "Snapshot" || o.Name() == "SnapshotForParallel") {
+		return true
+	}
+	// a helper of the executor that takes the snapshot on every path (takeTxSnapshot returning a snapshot object)
+	g := core.StaticCallee(c)
+	if g == nil || len(g.Blocks) == 0 || core.PkgOf(g) != "internal/executor" || g.Parent() != nil {
+		return false
+	}
+	direct := func(x ssa.Instruction) bool {
+		cc, ok := x.(ssa.CallInstruction)
+		if !ok {
+			return false
+		}
+		ob := core.CalleeObj(cc)
+		return ob != nil && (ob.Name() == "Snapshot" || ob.Name() == "SnapshotForParallel")
+	}
+	if len(sites(g, direct)) == 0 {
+		return false
+	}
+	rs := core.Reach([]core.Point{core.EntryOf(g)}, direct, nil)
+	for _, ret := range core.Returns(g) {
+		if rs.Has(ret) {
+			return false
+		}
+	}
+	return true
 }
 
 // errResultOf returns the error-typed result value(s) of a call as used in conditions.
